@@ -1119,7 +1119,7 @@ theorem linkOK_of_facts {s f : St} {p : Nat} {st0 st : Peer} {l : Link} (cf : Cm
   · rw [hpe.view]
     exact advClient_of_distinct _ _ (fun m hm => (hperm m hm).2.1) hdist
   · intro ⟨m, hm, hp⟩
-    rw [hpe.ps]; exact (hperm m hm).2.2 hp
+    rw [hpe.ps]; exact (hperm m hm).2.2.1 hp
 
 theorem feed_mid {y : Sys} {f : St} (hs : Sync y) (cf : CmdFacts y.st f) :
     Mid { y with st := f, links := absorb y.links f.out } f.out := by
